@@ -33,8 +33,43 @@ fn setup(ctx: &mut Ctx) {
     ];
 }
 
+/// Deterministic regression case for the known defect shared with C08
+/// ("Charmap::mappings:missing:U+10FFFF"): a format-1 entry reachable only
+/// through U+10FFFF is offered for {U+10FFFF} but not for all().
+fn canned_u10ffff(ctx: &mut Ctx) {
+    let t = Table1 {
+        compat: [7; 16],
+        max_entry: 2,
+        max_gm: 2,
+        glyph_count: 3,
+        first_mapped: 1,
+        entry_index: vec![1, 2],
+        feature_map: None,
+        applied: BTreeSet::new(),
+        template: b"//h/{id}".to_vec(),
+        patch_format: 3,
+        field_flags: 0,
+    };
+    let font = AbsFont { num_glyphs: 3, cmap: vec![(0x41, 1), (0x10FFFF, 2)], ift: Some(AbsTable::F1(t)), iftx: None };
+    let bytes = font.build();
+    let prep = prepare(&font);
+    let id = CaseId { stage: "canned", item: 0, font: &font, bytes: &bytes };
+    let small = Def { cps: CpDef { inverted: false, items: [0x10FFFF].into() }, feats: Some(BTreeSet::new()), design: Some(BTreeMap::new()) };
+    let a = check_intersection(ctx, &id, &prep, true, &small);
+    let b = check_intersection(ctx, &id, &prep, true, &Def::all());
+    if let (Some(ka), Some(kb)) = (&a.keys, &b.keys) {
+        if !b.quirk {
+            check_subset(ctx, &id, "subset-of-all", ka, &small, kb, &Def::all());
+        }
+    }
+    ctx.count("canned:u10ffff", 1);
+}
+
 pub fn run(ctx: &mut Ctx, _args: &Args) {
     setup(ctx);
+    if ctx.shard.0 == 0 {
+        canned_u10ffff(ctx);
+    }
     stage_exhaustive(ctx);
     let n = ctx.tier.pick(60_000, 1_500_000);
     for i in 0..n {
@@ -156,20 +191,24 @@ fn random_item(ctx: &mut Ctx, item: usize) {
     let id = CaseId { stage: "rand", item, font, bytes: &bytes };
 
     let all = Def::all();
-    let model_all = candidates(font, &prep, &all);
-    let keys_all = check_intersection(ctx, &id, &model_all, exact, &all);
+    let chk_all = check_intersection(ctx, &id, &prep, exact, &all);
     ctx.count("def:all()", 1);
-    check_selection(ctx, &id, &model_all, &all);
+    if exact {
+        check_selection(ctx, &id, &chk_all.model, &all);
+    }
 
     let n_defs = 4;
     let mut loop_defs: Vec<Def> = vec![all.clone()];
     for _ in 0..n_defs {
         let d = gen::gen_def(&mut rng, &case.uni, &case.base);
         ctx.count(&format!("def:{}", d.kind()), 1);
-        let model = candidates(font, &prep, &d);
-        let keys = check_intersection(ctx, &id, &model, exact, &d);
-        if let (Some(k), Some(ka)) = (&keys, &keys_all) {
-            check_subset(ctx, &id, "subset-of-all", k, &d, ka, &all);
+        let chk = check_intersection(ctx, &id, &prep, exact, &d);
+        if let (Some(k), Some(ka)) = (&chk.keys, &chk_all.keys) {
+            if chk.quirk || chk_all.quirk {
+                ctx.count("oracle:subset-of-all:skipped-known-defect", 1);
+            } else {
+                check_subset(ctx, &id, "subset-of-all", k, &d, ka, &all);
+            }
             if font.total_entries() >= 2 && !k.is_empty() && k.len() < ka.len() {
                 ctx.nontrivial(id.digest(&d));
                 ctx.sample_by_kind(
@@ -182,22 +221,27 @@ fn random_item(ctx: &mut Ctx, item: usize) {
         if !d.subset_of(&g) {
             ctx.inconclusive("generator: grown definition is not a superset");
         } else {
-            let model_g = candidates(font, &prep, &g);
-            let keys_g = check_intersection(ctx, &id, &model_g, exact, &g);
-            if let (Some(k), Some(kg)) = (&keys, &keys_g) {
-                check_subset(ctx, &id, "monotone", k, &d, kg, &g);
-                if kg.len() > k.len() {
-                    ctx.count("oracle:monotone:strictly-larger", 1);
+            let chk_g = check_intersection(ctx, &id, &prep, exact, &g);
+            if let (Some(k), Some(kg)) = (&chk.keys, &chk_g.keys) {
+                if chk.quirk || chk_g.quirk {
+                    ctx.count("oracle:monotone:skipped-known-defect", 1);
+                } else {
+                    check_subset(ctx, &id, "monotone", k, &d, kg, &g);
+                    if kg.len() > k.len() {
+                        ctx.count("oracle:monotone:strictly-larger", 1);
+                    }
                 }
             }
-            if rng.bool() {
-                check_selection(ctx, &id, &model_g, &g);
+            if exact && rng.bool() {
+                check_selection(ctx, &id, &chk_g.model, &g);
             }
             if rng.chance(1, 3) {
                 loop_defs.push(g);
             }
         }
-        check_selection(ctx, &id, &model, &d);
+        if exact {
+            check_selection(ctx, &id, &chk.model, &d);
+        }
         loop_defs.push(d);
     }
     if case.malformed.is_none() {
@@ -325,11 +369,13 @@ fn exhaustive_table(ctx: &mut Ctx, n: usize, defs: &[Def]) {
     let id = CaseId { stage: "exh", item: n, font: &font, bytes: &bytes };
     let mut keys: Vec<Option<BTreeSet<EntKey>>> = Vec::with_capacity(defs.len());
     let all = Def::all();
-    let model_all = candidates(&font, &prep, &all);
-    let keys_all = check_intersection(ctx, &id, &model_all, true, &all);
+    let chk_all = check_intersection(ctx, &id, &prep, true, &all);
+    let keys_all = chk_all.keys.clone();
+    let mut models = Vec::with_capacity(defs.len());
     for d in defs {
-        let model = candidates(&font, &prep, d);
-        let k = check_intersection(ctx, &id, &model, true, d);
+        let chk = check_intersection(ctx, &id, &prep, true, d);
+        let k = chk.keys;
+        models.push(chk.model);
         if let (Some(k), Some(ka)) = (&k, &keys_all) {
             if !k.is_subset(ka) {
                 check_subset(ctx, &id, "subset-of-all", k, d, ka, &all);
@@ -363,10 +409,9 @@ fn exhaustive_table(ctx: &mut Ctx, n: usize, defs: &[Def]) {
     ctx.count("oracle:monotone", pairs);
     // selection on a few definitions per table
     for j in [n % defs.len(), (n / 7) % defs.len()] {
-        let model = candidates(&font, &prep, &defs[j]);
-        check_selection(ctx, &id, &model, &defs[j]);
+        check_selection(ctx, &id, &models[j], &defs[j]);
     }
-    check_selection(ctx, &id, &model_all, &all);
+    check_selection(ctx, &id, &chk_all.model, &all);
 }
 
 thread_local! {
